@@ -4,6 +4,7 @@ import glob
 import json
 import os
 import re
+import shutil
 import subprocess
 from concurrent.futures import ThreadPoolExecutor
 
@@ -27,10 +28,13 @@ def sany():
         # modules for Apalache (EXTENDS Apalache) are parsed and type-checked by Apalache itself when they are used
         if re.search(r"^EXTENDS.*\bApalache\b", open(f).read(), re.M) or "_gen" in os.path.basename(f):
             continue
-        p = subprocess.run(["java", "-cp", vcommon.TLA_CP, "tla2sany.SANY", os.path.basename(f)], cwd=vcommon.SPEC,
+        jtmp = os.path.join(vcommon.BUILD, "tlcmeta", "sany-tmp")
+        os.makedirs(jtmp, exist_ok=True)
+        p = subprocess.run(["java", "-Djava.io.tmpdir=" + jtmp, "-cp", vcommon.TLA_CP, "tla2sany.SANY", os.path.basename(f)], cwd=vcommon.SPEC,
                            stdout=subprocess.PIPE, stderr=subprocess.STDOUT, text=True)
         if p.returncode != 0 or "rror" in p.stdout:
             bad.append((f, p.stdout[-800:]))
+    shutil.rmtree(os.path.join(vcommon.BUILD, "tlcmeta", "sany-tmp"), ignore_errors=True)
     return bad
 
 
